@@ -21,6 +21,11 @@
 (*   fsub     "none" | "num" (feedratio := fsubval)                                            *)
 (*   consts   keys (subset of {g, feedratio}) that a constants object passed to the builder    *)
 (*            defines as plain numbers (gconst, fconst)                                        *)
+(*   kinds may also be "ma_uk2": MassAction(p * q) with TWO unique keys ('p<i>','q<i>') and    *)
+(*            explicit defaults (p = kv, q = qval); subs "num" substitutes the first key,      *)
+(*            "num2" the second one (by subvals[i])                                            *)
+(*   The stirred-tank mapping (which substances, in which order, builder-made or caller-made)  *)
+(*   is part of the feed of Kinetics (feed.order, feed.usermap).                               *)
 (*   symorder <<>> or a permutation of the substance list: create_odesys is handed             *)
 (*            user-made concentration symbols in a plain dict inserted in that order           *)
 (*   comp     substances carry compositions (then linear invariants are reported)             *)
@@ -42,17 +47,18 @@ VARIABLES cfg
 
 ovars == <<kvars, cfg>>
 
-Kinds == {"num", "ma_num", "str", "ma_fk", "ma_uk", "ma_pk"}
-SubKinds == {"none", "num", "expr", "expruk"}
+Kinds == {"num", "ma_num", "str", "ma_fk", "ma_uk", "ma_pk", "ma_uk2"}
+SubKinds == {"none", "num", "num2", "expr", "expruk"}
 Named(kd) == kd \in {"str", "ma_fk", "ma_uk"}        \* the constant has a key k<i>
-HasDefault(kd) == kd \in {"num", "ma_num", "ma_uk", "ma_pk"}  \* the reaction carries a number
+HasDefault(kd) == kd \in {"num", "ma_num", "ma_uk", "ma_pk", "ma_uk2"}  \* the reaction carries a number
 TVar == "T"
 AVar == "a1"
 GVar == "g"
 PKeys == {GVar, FeedVar}                              \* parameter keys a constants object may define
 KName(i) == "k" \o ToString(i)
+PName(i) == "p" \o ToString(i)
+QName(i) == "q" \o ToString(i)
 Substs == { subst[j] : j \in DOMAIN subst }
-SeqSet(sq) == { sq[j] : j \in DOMAIN sq }
 HasG(cf) == \E i \in DOMAIN cf.kinds : cf.kinds[i] = "ma_pk"
 NExprSubs(cf) == Cardinality({ i \in DOMAIN cf.subs : cf.subs[i] \in {"expr", "expruk"} })
                  + (IF cf.gsub = "expr" THEN 1 ELSE 0)
@@ -63,7 +69,7 @@ IsConfig(cf, n) ==
     /\ Len(cf.kinds) = n /\ \A i \in 1..n : cf.kinds[i] \in Kinds
     /\ Len(cf.subs) = n /\ \A i \in 1..n : cf.subs[i] \in SubKinds
     /\ Len(cf.subvals) >= n /\ \A i \in 1..n : IsQ(cf.subvals[i])
-    /\ IsQ(cf.aval) /\ IsQ(cf.tval)
+    /\ IsQ(cf.aval) /\ IsQ(cf.tval) /\ IsQ(cf.qval)
     /\ cf.gsub \in {"none", "num", "expr"} /\ cf.fsub \in {"none", "num"}
     /\ SeqSet(cf.consts) \subseteq PKeys
     /\ IsQ(cf.gval) /\ IsQ(cf.gsubval) /\ IsQ(cf.gconst) /\ IsQ(cf.fsubval) /\ IsQ(cf.fconst)
@@ -76,7 +82,9 @@ Accepted(cf, n) ==
     /\ IsConfig(cf, n)
     /\ IF cf.builder = "get_odesys"
        THEN \* a substitution must name a key that occurs in some rate expression
-            /\ \A i \in 1..n : cf.subs[i] # "none" => Named(cf.kinds[i])
+            /\ \A i \in 1..n : cf.subs[i] # "none" =>
+                   (Named(cf.kinds[i]) \/ (cf.kinds[i] = "ma_uk2" /\ cf.subs[i] \in {"num", "num2"}))
+            /\ \A i \in 1..n : cf.subs[i] = "num2" => cf.kinds[i] = "ma_uk2"
             /\ cf.gsub # "none" => HasG(cf)
             /\ cf.fsub # "none" => cf.cstr
             \* with include_params a purely named constant has no value to include
@@ -93,6 +101,12 @@ Accepted(cf, n) ==
 (* status of the i-th rate constant in the generated expressions *)
 Free(cf, i) == Named(cf.kinds[i]) /\ cf.subs[i] = "none" /\ (cf.builder = "create_odesys" \/ ~cf.incl)
 AFree(cf, i) == cf.subs[i] = "expruk" /\ ~cf.incl /\ cf.builder = "get_odesys"
+\* the two unique keys of an "ma_uk2" constant: free iff not substituted and parameters are kept free
+KeysFree(cf) == cf.builder = "create_odesys" \/ ~cf.incl
+PFree(cf, i) == cf.kinds[i] = "ma_uk2" /\ cf.subs[i] # "num" /\ KeysFree(cf)
+QFree(cf, i) == cf.kinds[i] = "ma_uk2" /\ cf.subs[i] # "num2" /\ KeysFree(cf)
+PVal(cf, i) == IF cf.subs[i] = "num" THEN cf.subvals[i] ELSE rsys[i].kv
+QVal(cf, i) == IF cf.subs[i] = "num2" THEN cf.subvals[i] ELSE cf.qval
 
 (* resolution of a parameter key: substitution > constants > free.  A resolved key is a pair  *)
 (* <<numeric factor, exponent vector of the symbols that remain>>                             *)
@@ -115,7 +129,7 @@ ExpectedNames == subst
 \* the i-th dependent variable is the concentration symbol of the i-th substance, whatever the
 \* order in which the caller's symbols were handed over (observable for create_odesys)
 ExpectedDep(cf) == IF cf.builder = "create_odesys" THEN subst ELSE <<>>
-FcVars == { FcVar(subst[j]) : j \in DOMAIN subst }
+FcVars == { FcVar(s) : s \in SeqSet(feed.order) }
 ExpectedParams(cf) ==
     { KName(i) : i \in { j \in DOMAIN rsys : Free(cf, j) } }
     \cup (IF cf.cstr THEN FcVars ELSE {})
@@ -123,12 +137,18 @@ ExpectedParams(cf) ==
     \cup (IF GFree(cf) THEN {GVar} ELSE {})
     \cup (IF NExprSubs(cf) > 0 THEN {TVar} ELSE {})
     \cup (IF \E i \in DOMAIN rsys : AFree(cf, i) THEN {AVar} ELSE {})
+    \cup { PName(i) : i \in { j \in DOMAIN rsys : PFree(cf, j) } }
+    \cup { QName(i) : i \in { j \in DOMAIN rsys : QFree(cf, j) } }
 
 \* the rate expression of reaction i: one monomial
 RateTerm(cf, i) ==
     LET r == rsys[i]
         e == Sparse(r.reac)
     IN  IF cf.kinds[i] = "ma_pk" THEN <<QMul(r.kv, GTerm(cf)[1]), 0, EMul(e, GTerm(cf)[2])>>
+        ELSE IF cf.kinds[i] = "ma_uk2" THEN
+            <<QMul(IF PFree(cf, i) THEN QOne ELSE PVal(cf, i), IF QFree(cf, i) THEN QOne ELSE QVal(cf, i)), 0,
+              EMul(e, EMul(IF PFree(cf, i) THEN EOne(PName(i)) ELSE EmptyMap,
+                           IF QFree(cf, i) THEN EOne(QName(i)) ELSE EmptyMap))>>
         ELSE IF Free(cf, i) THEN <<QOne, r.k, e>>
         ELSE IF cf.subs[i] = "num" THEN <<cf.subvals[i], 0, e>>
         ELSE IF cf.subs[i] \in {"expr", "expruk"} THEN
@@ -143,17 +163,21 @@ FeedPolyCfg(cf, s) == { <<FTerm(cf)[1], 0, EMul(FTerm(cf)[2], EOne(FcVar(s)))>>,
 Term(cf, i, s) == LET t == RateTerm(cf, i) IN <<QMul(Q(Net(rsys[i])[s]), t[1]), t[2], t[3]>>
 ExpectedPoly(cf, s) ==
     LET P == PolyNorm([i \in 1..Len(rsys) |-> Term(cf, i, s)])
-    IN  IF cf.cstr THEN PolyAdd(P, FeedPolyCfg(cf, s)) ELSE P
+    IN  IF Fed(feed, s) THEN PolyAdd(P, FeedPolyCfg(cf, s)) ELSE P
 
 (* binding: the values the free symbols stand for *)
 EffK(cf, i) == IF cf.kinds[i] = "ma_pk" THEN QMul(rsys[i].kv, GEff(cf))
+               ELSE IF cf.kinds[i] = "ma_uk2" THEN QMul(PVal(cf, i), QVal(cf, i))
                ELSE IF cf.subs[i] = "num" THEN cf.subvals[i]
                ELSE IF cf.subs[i] \in {"expr", "expruk"} THEN QMul(cf.aval, cf.tval)
                ELSE rsys[i].kv
 EffSys(cf) == [i \in 1..Len(rsys) |-> [rsys[i] EXCEPT !.kv = EffK(cf, i)]]
 EffFeed(cf) == IF feed.on THEN [feed EXCEPT !.F = FEff(cf)] ELSE feed
 ParamEnv(cf) == [v \in {TVar, AVar, GVar} |-> IF v = TVar THEN cf.tval ELSE IF v = AVar THEN cf.aval ELSE cf.gval]
-FullEnv(cf) == ParamEnv(cf) @@ FeedEnv(feed)
+KeyEnv(cf) == [v \in { PName(i) : i \in DOMAIN rsys } \cup { QName(i) : i \in DOMAIN rsys } |->
+                  IF \E i \in DOMAIN rsys : PName(i) = v
+                  THEN rsys[CHOOSE i \in DOMAIN rsys : PName(i) = v].kv ELSE cf.qval]
+FullEnv(cf) == ParamEnv(cf) @@ KeyEnv(cf) @@ FeedEnv(feed)
 \* replace every parameter symbol (free constants, T, a1, g, feed variables) by its value;
 \* only the concentrations stay symbolic
 BindMono(cf, m) ==
@@ -164,7 +188,7 @@ BindMono(cf, m) ==
 BindParams(cf, P) == LET ms == SetToSeq(P) IN PolyNorm([i \in 1..Len(ms) |-> BindMono(cf, ms[i])])
 \* the kinetic model of Kinetics for the effective constants, every parameter a number
 BoundModel(cf, s) ==
-    IF cf.cstr
+    IF Fed(feed, s)
     THEN PolyAdd(RatePolyInlined(EffSys(cf), s),
                  PolyNorm(<< <<QMul(FEff(cf), feed.cf[s]), 0, EmptyMap>>, <<QNeg(FEff(cf)), 0, EOne(s)>> >>))
     ELSE RatePolyInlined(EffSys(cf), s)
@@ -173,6 +197,7 @@ BindEnv(cf) ==
     LET names == ExpectedParams(cf)
     IN  [v \in names |->
             IF v \in {TVar, AVar, GVar} THEN ParamEnv(cf)[v]
+            ELSE IF v \in DOMAIN KeyEnv(cf) THEN KeyEnv(cf)[v]
             ELSE IF v \in DOMAIN FeedEnv(feed) THEN FeedEnv(feed)[v]
             ELSE rsys[CHOOSE i \in DOMAIN rsys : KName(i) = v].kv]
 ExpectedF(cf) == RatesFed(EffSys(cf), c, EffFeed(cf))
@@ -189,13 +214,14 @@ OInit == Init /\ cfg = [builder |-> "none"]
 Build(cf) ==
     /\ phase = "ready" /\ Accepted(cf, Len(rsys)) /\ cf.cstr = feed.on
     /\ cfg' = cf /\ phase' = "built"
-    /\ UNCHANGED <<rsys, subst, c, feed>>
+    /\ UNCHANGED <<rsys, subst, c, feed, sphase, hist>>
 
 GenBuild == \E cf \in Configs(Len(rsys)) : Build(cf)
 OAdd == GenAdd /\ UNCHANGED cfg
 OState == GenState /\ UNCHANGED cfg
 OFeed == GenFeed /\ UNCHANGED cfg
-ONext == OAdd \/ OState \/ OFeed \/ GenBuild
+OReassign == GenReassign /\ UNCHANGED cfg
+ONext == OAdd \/ OState \/ OFeed \/ OReassign \/ GenBuild
 OSpec == OInit /\ [][ONext]_ovars
 
 Built == phase = "built"
@@ -218,7 +244,7 @@ MayRefuse(cf) == HasUntouched \/ ConstRHS(cf)
 FreeVsInlinedAgree == Built =>
     \A s \in Substs :
         /\ BindParams(cfg, ExpectedPoly(cfg, s)) = BoundModel(cfg, s)
-        /\ EvalPoly(ExpectedPoly(cfg, s), VEnv(c, feed) @@ ParamEnv(cfg), KEnv(rsys)) = ExpectedF(cfg)[s]
+        /\ EvalPoly(ExpectedPoly(cfg, s), VEnv(c, feed) @@ ParamEnv(cfg) @@ KeyEnv(cfg), KEnv(rsys)) = ExpectedF(cfg)[s]
 
 \* the configuration changes only which symbols are free: with nothing substituted and no
 \* constants object the bound form is Kinetics' polynomial of the system itself (g bound to its
@@ -226,12 +252,13 @@ FreeVsInlinedAgree == Built =>
 Plain(cf) == /\ \A i \in DOMAIN rsys : cf.subs[i] = "none"
              /\ cf.gsub = "none" /\ cf.fsub = "none" /\ cf.consts = <<>>
 BaseSys(cf) == [i \in 1..Len(rsys) |->
-                  [rsys[i] EXCEPT !.kv = IF cf.kinds[i] = "ma_pk" THEN QMul(@, cf.gval) ELSE @]]
+                  [rsys[i] EXCEPT !.kv = IF cf.kinds[i] = "ma_pk" THEN QMul(@, cf.gval)
+                                         ELSE IF cf.kinds[i] = "ma_uk2" THEN QMul(@, cf.qval) ELSE @]]
 ConfigOnlyChangesFreeSymbols == Built =>
     (Plain(cfg) =>
         \A s \in Substs :
             /\ BindParams(cfg, ExpectedPoly(cfg, s)) =
-                 BindParams(cfg, RatePolyInlinedFed(BaseSys(cfg), s, cfg.cstr))
+                 BindParams(cfg, RatePolyInlinedFed(BaseSys(cfg), s, Fed(feed, s)))
             /\ ExpectedF(cfg)[s] = RatesFed(BaseSys(cfg), c, feed)[s])
 
 \* a substitution beats the constants object: the expected system does not depend on what the
@@ -256,11 +283,11 @@ ParamsAreTheFreeSymbols == Built =>
 \* one equation per substance: an untouched substance only sees its feed term
 UntouchedOnlyFeed == Built =>
     \A s \in Untouched(rsys) \cap Substs :
-        ExpectedPoly(cfg, s) = (IF cfg.cstr THEN FeedPolyCfg(cfg, s) ELSE {})
+        ExpectedPoly(cfg, s) = (IF Fed(feed, s) THEN FeedPolyCfg(cfg, s) ELSE {})
 
 RatePolyMatches == Built =>
     \A i \in DOMAIN rsys :
-        EvalPoly(ExpectedRatePoly(cfg, i), VEnv(c, feed) @@ ParamEnv(cfg), KEnv(rsys)) = ExpectedRVals(cfg)[i]
+        EvalPoly(ExpectedRatePoly(cfg, i), VEnv(c, feed) @@ ParamEnv(cfg) @@ KeyEnv(cfg), KEnv(rsys)) = ExpectedRVals(cfg)[i]
 
 OTypeOK == phase \in {"build", "ready", "built"} /\ (Built => Accepted(cfg, Len(rsys)))
 
@@ -271,16 +298,18 @@ CfgOut(cf) == [builder |-> cf.builder, incl |-> cf.incl, kinds |-> cf.kinds, sub
                subvals |-> SubSeq(cf.subvals, 1, Len(rsys)), aval |-> cf.aval, tval |-> cf.tval,
                gsub |-> cf.gsub, fsub |-> cf.fsub, consts |-> cf.consts, symorder |-> cf.symorder,
                gval |-> cf.gval, gsubval |-> cf.gsubval, gconst |-> cf.gconst,
-               fsubval |-> cf.fsubval, fconst |-> cf.fconst]
+               fsubval |-> cf.fsubval, fconst |-> cf.fconst, qval |-> cf.qval]
 OClass == cfg.builder \o (IF cfg.incl THEN "-incl" ELSE "-free")
           \o (IF cfg.cstr THEN "-cstr" ELSE "") \o (IF cfg.comp THEN "-comp" ELSE "")
-          \o (IF cfg.consts # <<>> THEN "-consts" ELSE "") \o (IF cfg.symorder # <<>> THEN "-sym" ELSE "")
+          \o (IF cfg.consts # <<>> THEN "-consts" ELSE "") \o (IF feed.usermap THEN "-map" ELSE "")
+          \o (IF hist # <<>> THEN "-h" ELSE "") \o (IF cfg.symorder # <<>> THEN "-sym" ELSE "")
           \o (IF HasUntouched THEN "-u" ELSE "") \o (IF ConstRHS(cfg) THEN "-const" ELSE "") \o "-n" \o ToString(Len(rsys))
 OCaseIn == [ subst |-> subst,
              rxns |-> [i \in 1..Len(rsys) |-> RxnOut(rsys[i])],
              c |-> BySubst(c),
-             feed |-> IF feed.on THEN [on |-> TRUE, F |-> feed.F, cf |-> BySubst(feed.cf)]
-                      ELSE [on |-> FALSE, F |-> QZero, cf |-> <<>>],
+             sphase |-> BySubst(sphase),
+             hist |-> hist,
+             feed |-> FeedOut,
              cfg |-> CfgOut(cfg),
              comp |-> [j \in 1..Len(subst) |-> MapSeq(Sparse(Comp[subst[j]]))],
              bind |-> MapSeq(BindEnv(cfg)) ]
